@@ -14,7 +14,7 @@ import pysam
 from io import StringIO
 
 from .common import get_path_to_program
-from .gtf2db import convert_db_to_gtf, db2bed
+from .gtf2db import convert_db_to_gtf, db2bed, load_json_cache, dump_json_cache
 from .input_data_storage import SampleData
 
 logger = logging.getLogger('IsoQuant')
@@ -88,8 +88,7 @@ def get_aligner(aligner):
 def find_stored_index(args):
     reference_filename = os.path.abspath(args.reference)
 
-    with open(args.index_config_path, 'r') as f_in:
-        converted_indexes = json.load(f_in)
+    converted_indexes = load_json_cache(args.index_config_path)
 
     index_filename = converted_indexes.get(reference_filename, {}).get('index_filename')
     logger.debug('Searching for previously created index for {}'.format(reference_filename))
@@ -110,24 +109,21 @@ def store_index(index, args):
     reference_filename = os.path.abspath(args.reference)
     index = os.path.abspath(index)
 
-    with open(args.index_config_path, 'r') as f_in:
-        converted_indexes = json.load(f_in)
+    converted_indexes = load_json_cache(args.index_config_path)
     converted_indexes[reference_filename] = {
         'index_filename': index,
         'reference_mtime': os.path.getmtime(reference_filename),
         'index_mtime': os.path.getmtime(index),
         'kmer_size': KMER_SIZE[args.data_type]
     }
-    with open(args.index_config_path, 'w') as f_out:
-        json.dump(converted_indexes, f_out)
+    dump_json_cache(args.index_config_path, converted_indexes)
     logger.debug('New index saved to {}'.format(index))
 
 
 def find_stored_bed(args):
     genedb_filename = os.path.abspath(args.genedb)
 
-    with open(args.bed_config_path, 'r') as f_in:
-        converted_beds = json.load(f_in)
+    converted_beds = load_json_cache(args.bed_config_path)
 
     bed_filename = converted_beds.get(genedb_filename, {}).get('bed_filename')
     logger.debug('Searching for previously created BED for {}'.format(genedb_filename))
@@ -146,15 +142,13 @@ def store_bed(bed, args):
     genedb_filename = os.path.abspath(args.genedb)
     bed = os.path.abspath(bed)
 
-    with open(args.bed_config_path, 'r') as f_in:
-        converted_beds = json.load(f_in)
+    converted_beds = load_json_cache(args.bed_config_path)
     converted_beds[genedb_filename] = {
         'bed_filename': bed,
         'reference_mtime': os.path.getmtime(genedb_filename),
         'bed_mtime': os.path.getmtime(bed)
     }
-    with open(args.bed_config_path, 'w') as f_out:
-        json.dump(converted_beds, f_out)
+    dump_json_cache(args.bed_config_path, converted_beds)
     logger.debug('New BED saved to {}'.format(bed))
 
 
@@ -165,8 +159,7 @@ def find_stored_alignment(fastq_file, annotation, args):
     ann_str = "_" + ann_path if ann_path else ""
 
     key = "%s_aligned_to_%s%s" % (fastq, index, ann_str)
-    with open(args.alignment_config_path, 'r') as f_in:
-        aligned_fastq_files = json.load(f_in)
+    aligned_fastq_files = load_json_cache(args.alignment_config_path)
 
     logger.debug('Searching for previously created alignment for {}'.format(fastq))
     bam_fpath = aligned_fastq_files.get(key, {}).get('alignment_fpath')
@@ -198,8 +191,7 @@ def store_alignment(bam_file, fastq_file, annotation, args):
     key = "%s_aligned_to_%s%s" % (fastq, index, "_" + ann_path if ann_path else "")
     bam_file = os.path.abspath(bam_file)
 
-    with open(args.alignment_config_path, 'r') as f_in:
-        aligned_fastq_files = json.load(f_in)
+    aligned_fastq_files = load_json_cache(args.alignment_config_path)
     aligned_fastq_files[key] = {
         'alignment_fpath': bam_file,
         'index_mtime': os.path.getmtime(index),
@@ -207,8 +199,7 @@ def store_alignment(bam_file, fastq_file, annotation, args):
         'bam_mtime': os.path.getmtime(bam_file),
         'ann_mtime': os.path.getmtime(ann_path) if ann_path else ""
     }
-    with open(args.alignment_config_path, 'w') as f_out:
-        json.dump(aligned_fastq_files, f_out)
+    dump_json_cache(args.alignment_config_path, aligned_fastq_files)
     logger.debug('New alignment saved to {}'.format(bam_file))
 
 
